@@ -53,6 +53,23 @@ def replay(model, obligation):
         if any(not c.is_closed for c in opened) or cc._connection is not None:
             fails.append('shutdown() during the first metadata queries of a control reconnect: connection left open=%s, installed=%s'
                          % ([c.name for c in opened if not c.is_closed], cc._connection is not None))
+    if '_ReconnectionHandler' in obligation:
+        from cassandra.pool import _ReconnectionHandler
+        opened, handed = [], []
+
+        class H(_ReconnectionHandler):
+            def try_reconnect(self):
+                c = Conn(opened, 'attempt')
+                self.cancel()       # the owner shuts down while this attempt is connecting
+                return c
+
+            def on_reconnection(self, c):
+                handed.append(c)
+        sched = types.SimpleNamespace(schedule=lambda *a, **k: None)
+        h = H(sched, iter([1.0]), lambda *a, **k: handed.append('callback'))
+        h.run()
+        if handed or any(not c.is_closed for c in opened):
+            fails.append('handler cancelled while its attempt was connecting: connection closed=%s, handed over=%r' % ([c.is_closed for c in opened], handed))
     if 'Session.add_or_renew_pool' in obligation:
         import cassandra.cluster as cmod
         from cassandra.policies import HostDistance
